@@ -855,12 +855,16 @@ def site_conjgradnet(seed, centered, mask_kind="random"):
     def hook(mod, inp, out):
         calls.append(([a.detach().clone() if isinstance(a, torch.Tensor) else a for a in inp], out.detach().clone()))
 
-    h = model.conj_grad.register_forward_hook(hook)
+    net_io = []
+    hs = [model.conj_grad.register_forward_hook(hook)]
+    for net in model.nets:
+        hs.append(net.register_forward_hook(lambda mod, inp, out_: net_io.append((inp[0].detach().clone(), out_.detach().clone()))))
     try:
         with torch.no_grad():
             out = model(y, S, m)
     finally:
-        h.remove()
+        for h in hs:
+            h.remove()
     fails, n = [], 0
     tag = "/".join(form)
     if len(calls) != 3:
@@ -876,6 +880,14 @@ def site_conjgradnet(seed, centered, mask_kind="random"):
         z = inp[3]
         if i == 0 and not close(z, _sense(bop, y, S), tol=1e-5):
             fails.append(_fail("site-conjgradnet-init", f"[{tag}] z_0 is not the SENSE image R F^H y"))
+        if i >= 1:
+            # z_i = learning_rate[i-1] * denoiser_{i-1}(x_{i-1}), x_{i-1} = the previous conjugate-gradient solution
+            n += 1
+            ok_chain = (len(net_io) >= i and torch.equal(net_io[i - 1][0], calls[i - 1][1].permute(0, 3, 1, 2))
+                        and close(z, float(model.learning_rate[i - 1].detach()) * net_io[i - 1][1].permute(0, 2, 3, 1), tol=1e-6))
+            if not ok_chain:
+                fails.append(_fail("site-conjgradnet-args", f"[{tag}] conj_grad call {i}: z is not learning_rate·denoiser(previous solution)"))
+                break
         sol = _dense_solve(fop, S, m, y, z, mu)
         xc = torch.view_as_complex(xo.contiguous()).reshape(sol.shape).to(torch.complex128)
         r = float((xc - sol).norm()) / (float(sol.norm()) + 1e-12)
